@@ -69,11 +69,11 @@ impl<'a, E: Elem> GIter1<'a, E> {
         let Some(i) = pick_len(self.its.len(), a[0]) else { return self.noop(cx) };
         let len = self.its[i].model.len();
         // argument range 0..=len+2, plus (args >= 100) arguments at the top of the usize range
-        let n = if a[1] >= 100 { usize::MAX - (a[1] as usize - 100) % 4 } else { (a[1] as usize) % (len + 3) };
-        if a[1] >= 100 {
+        let n = if a[1] >= 100_000 { usize::MAX - (a[1] as usize - 100_000) % 4 } else { (a[1] as usize) % (len + 3) };
+        if a[1] >= 100_000 {
             cx.probe("nth/nth_back with an argument near usize::MAX");
         }
-        self.it_cov(cx, if back { OpKind::ItNthBack } else { OpKind::ItNth }, i, if a[1] >= 100 { 99 } else { n as u64 });
+        self.it_cov(cx, if back { OpKind::ItNthBack } else { OpKind::ItNth }, i, if a[1] >= 100_000 { 99 } else { n as u64 });
         if n >= len {
             cx.probe("nth/nth_back with n >= len");
         }
